@@ -236,6 +236,7 @@ func (c *ctx) bytesN(n int) []byte {
 func newRand(seed int64) *rand.Rand { return rand.New(rand.NewSource(seed)) }
 
 func (c *ctx) pick(xs ...int) int { return xs[c.rnd.Intn(len(xs))] }
+func (c *ctx) pickS(xs ...string) string { return xs[c.rnd.Intn(len(xs))] }
 
 // withSpare returns b as a sub-slice of a larger backing array (guard bytes before, spare capacity
 // with non-zero guard bytes after) together with the backing array, so that a callee that writes
